@@ -23,6 +23,15 @@ class Iv:
     lo: float
     hi: float
     src: str = ""        # provenance of the bounds (e.g. 'atan2')
+    lo_t: bool = False   # per bound: the bound is a value the expression takes (or approaches): constants, full documented ranges of library
+                         # functions applied to unconstrained arguments, values found in records, and images of ONE such source under
+                         # monotone arithmetic with constants.  Anything that combines two varying sources is not tight (their values may be correlated).
+
+    hi_t: bool = False
+
+    @property
+    def tight(self) -> bool:
+        return self.lo_t and self.hi_t
 
     def is_point(self) -> bool:
         return self.lo == self.hi
@@ -54,7 +63,10 @@ def _up(x: float) -> float:
 
 def hull(a: Any, b: Any) -> Any:
     if isinstance(a, Iv) and isinstance(b, Iv):
-        return Iv(min(a.lo, b.lo), max(a.hi, b.hi), a.src or b.src)
+        lo_t = (a.lo_t if a.lo <= b.lo else b.lo_t)
+        hi_t = (a.hi_t if a.hi >= b.hi else b.hi_t)
+        src = (a.src if a.hi >= b.hi else b.src) or a.src or b.src
+        return Iv(min(a.lo, b.lo), max(a.hi, b.hi), src, lo_t, hi_t)
     if isinstance(a, TupleV) and isinstance(b, TupleV) and len(a.items) == len(b.items):
         return TupleV([hull(x, y) for x, y in zip(a.items, b.items)])
     if a is None:
@@ -64,22 +76,37 @@ def hull(a: Any, b: Any) -> Any:
     return Top("join of different shapes")
 
 
+def _flags(a: Iv, b: Iv, swap: bool = False) -> Tuple[bool, bool]:
+    """bound flags of  a (op) b  when at most one of them varies (the other is an exactly known constant)"""
+    if a.is_point() and b.is_point():
+        t = a.tight and b.tight
+        return t, t
+    if b.is_point() and b.tight:
+        return (a.hi_t, a.lo_t) if swap else (a.lo_t, a.hi_t)
+    if a.is_point() and a.tight:
+        return (b.hi_t, b.lo_t) if swap else (b.lo_t, b.hi_t)
+    return False, False
+
+
 def add(a: Iv, b: Iv) -> Iv:
     exact = a.is_point() and b.is_point()
     lo, hi = a.lo + b.lo, a.hi + b.hi
-    return Iv(lo, hi, a.src or b.src) if exact else Iv(_dn(lo), _up(hi), a.src or b.src)
+    lt, ht = _flags(a, b)
+    return Iv(lo, hi, a.src or b.src, lt, ht) if exact else Iv(_dn(lo), _up(hi), a.src or b.src, lt, ht)
 
 
 def neg(a: Iv) -> Iv:
-    return Iv(-a.hi, -a.lo, a.src)
+    return Iv(-a.hi, -a.lo, a.src, a.hi_t, a.lo_t)
 
 
 def mul(a: Iv, b: Iv) -> Iv:
     ps = [a.lo * b.lo, a.lo * b.hi, a.hi * b.lo, a.hi * b.hi]
     ps = [0.0 if math.isnan(p) else p for p in ps]
     if a.is_point() and b.is_point():
-        return Iv(ps[0], ps[0], a.src or b.src)
-    return Iv(_dn(min(ps)), _up(max(ps)), a.src or b.src)
+        return Iv(ps[0], ps[0], a.src or b.src, a.tight and b.tight, a.tight and b.tight)
+    c = b.lo if b.is_point() else (a.lo if a.is_point() else 0.0)
+    lt, ht = _flags(a, b, swap=c < 0) if c != 0 else (False, False)
+    return Iv(_dn(min(ps)), _up(max(ps)), a.src or b.src, lt, ht)
 
 
 def div(a: Iv, b: Iv) -> Any:
@@ -87,8 +114,9 @@ def div(a: Iv, b: Iv) -> Any:
         return Top("division by an interval containing zero")
     ps = [a.lo / b.lo, a.lo / b.hi, a.hi / b.lo, a.hi / b.hi]
     if a.is_point() and b.is_point():
-        return Iv(ps[0], ps[0], a.src or b.src)
-    return Iv(_dn(min(ps)), _up(max(ps)), a.src or b.src)
+        return Iv(ps[0], ps[0], a.src or b.src, a.tight and b.tight, a.tight and b.tight)
+    lt, ht = (_flags(a, b, swap=b.lo < 0) if b.is_point() else (False, False))
+    return Iv(_dn(min(ps)), _up(max(ps)), a.src or b.src, lt, ht)
 
 
 LIB_RANGES = {
@@ -123,7 +151,7 @@ class FloatInterp:
             if isinstance(e.value, bool):
                 return Top("bool")
             if isinstance(e.value, (int, float)):
-                return Iv(float(e.value), float(e.value))
+                return Iv(float(e.value), float(e.value), "", True, True)
             return Top("constant")
         if isinstance(e, ast.Name):
             if e.id in env:
@@ -137,7 +165,10 @@ class FloatInterp:
             if bd is not None and bd.kind == "var":
                 return self.module_const(bd.target)
             if bd is not None and bd.kind == "external" and bd.target == "math.pi":
-                return Iv(math.pi, math.pi)
+                return Iv(math.pi, math.pi, "", True, True)
+            fs = self.field_summary(e.attr)
+            if fs is not None:
+                return fs
             return Top(f"attribute {core.src(e)}")
         if isinstance(e, ast.Tuple):
             return TupleV([self.ev(x, env, fi) for x in e.elts])
@@ -166,7 +197,7 @@ class FloatInterp:
                 if isinstance(e.op, ast.Pow) and l.is_point() and r.is_point():
                     try:
                         v = l.lo ** r.lo
-                        return Iv(v, v)
+                        return Iv(v, v, "", l.tight and r.tight, l.tight and r.tight)
                     except (OverflowError, ZeroDivisionError):
                         return Top("pow")
                 if isinstance(e.op, ast.FloorDiv) and r.is_point() and r.lo > 0:
@@ -200,7 +231,9 @@ class FloatInterp:
                 return args[1]
             if cs.name in LIB_RANGES:
                 lo, hi = LIB_RANGES[cs.name]
-                return Iv(lo, hi, cs.name)
+                # the whole documented range is taken when nothing is known about the arguments
+                free = all(isinstance(a, Top) for a in args)
+                return Iv(lo, hi, cs.name, free, free)
             if cs.name == "math.sqrt" and args and isinstance(args[0], Iv) and args[0].lo >= 0:
                 return Iv(_dn(math.sqrt(args[0].lo)), _up(math.sqrt(args[0].hi)))
             if cs.name in ("math.floor", "math.ceil") and args and isinstance(args[0], Iv) and not math.isinf(args[0].lo) and not math.isinf(args[0].hi):
@@ -232,6 +265,94 @@ class FloatInterp:
                     bound[k.arg] = self.ev(k.value, env, fi)
             return self.run(callee, bound)
         return Top(f"call {cs.name} ({cs.kind}, {len(cs.callees)} callees)")
+
+    # -- record fields --------------------------------------------------------------------------------------
+    def context_env(self, fi: FuncInfo, depth: int = 0) -> Dict[str, Any]:
+        """flow-insensitive environment of a function body: parameters joined over the call sites of the function (one level of
+        callers), `for v in range(k)` variables as [0, k-1], local names as the hull of everything assigned to them"""
+        env: Dict[str, Any] = {}
+        if not fi.is_module_body and depth < 2:
+            sites = [(caller, cs) for caller, lst in self.model.calls.items() for cs in lst if fi.qual in cs.callees and cs.kind == "func"]
+            for caller, cs in sites:
+                cfi = self.model.funcs[caller]
+                cenv = self.context_env(cfi, depth + 1)
+                for i, a in enumerate(cs.node.args):
+                    if i < len(fi.params):
+                        env[fi.params[i]] = hull(env.get(fi.params[i]), self.ev(a, cenv, cfi))
+                for k in cs.node.keywords:
+                    if k.arg:
+                        env[k.arg] = hull(env.get(k.arg), self.ev(k.value, cenv, cfi))
+            for p in fi.params:
+                env.setdefault(p, Top(f"parameter {p}"))
+        body = fi.node.body
+
+        def scan(stmts):
+            for st in stmts:
+                if isinstance(st, ast.For):
+                    rng = st.iter
+                    if isinstance(st.target, ast.Name) and isinstance(rng, ast.Call) and isinstance(rng.func, ast.Name) and rng.func.id == "range" \
+                            and len(rng.args) == 1:
+                        n = self.ev(rng.args[0], env, fi)
+                        env[st.target.id] = Iv(0.0, n.hi - 1, "field (loop index)", n.tight, n.tight) if isinstance(n, Iv) and n.hi >= 1 else Top("range")
+                    else:
+                        for nn in ast.walk(st.target):
+                            if isinstance(nn, ast.Name):
+                                env[nn.id] = Top("loop variable")
+                    scan(st.body)
+                elif isinstance(st, (ast.If, ast.While, ast.With, ast.Try)):
+                    for fld in ("body", "orelse", "finalbody"):
+                        scan(getattr(st, fld, []) or [])
+                elif isinstance(st, ast.Assign) and len(st.targets) == 1 and isinstance(st.targets[0], ast.Name):
+                    nm = st.targets[0].id
+                    v = self.ev(st.value, env, fi)
+                    env[nm] = v if nm not in env else hull(env[nm], v)
+        scan(body)
+        return env
+
+    def field_summary(self, attr: str) -> Any:
+        """hull of every value a record field `attr` is given anywhere in the repository: the keyword `attr=` of each constructor
+        call of a repository class (positional construction or ** makes it Top); copies `attr=x.attr` add nothing"""
+        key = f"<field {attr}>"
+        if key in self.const_cache:
+            return self.const_cache[key]
+        self.const_cache[key] = None
+        out: Any = None
+        found = False
+        for caller, lst in self.model.calls.items():
+            for cs in lst:
+                if cs.kind != "ctor":
+                    continue
+                kws = {k.arg: k.value for k in cs.node.keywords}
+                cls = self.model.classes.get(cs.ctor_class)
+                fields = set()
+                if cls is not None:
+                    for n in cls.node.body:
+                        if isinstance(n, ast.AnnAssign) and isinstance(n.target, ast.Name):
+                            fields.add(n.target.id)
+                if attr not in fields:
+                    continue
+                if cs.node.args or None in kws or attr not in kws:
+                    self.const_cache[key] = None
+                    return None
+                ve = kws[attr]
+                if isinstance(ve, ast.Attribute) and ve.attr == attr:
+                    continue      # copied from another record of the same kind
+                found = True
+                cfi = self.model.funcs[caller]
+                out = hull(out, self.ev(ve, self.context_env(cfi), cfi))
+        res = out if found else None
+        if isinstance(res, Top):
+            res = None
+
+        def mark(v):
+            if isinstance(v, Iv):
+                return Iv(v.lo, v.hi, f"field {attr}", True, True)     # every bound is the value of the field in some record
+            if isinstance(v, TupleV):
+                return TupleV([mark(x) for x in v.items])
+            return v
+        res = mark(res)
+        self.const_cache[key] = res
+        return res
 
     # -- functions --------------------------------------------------------------------------------------
     def run(self, fi: FuncInfo, bound: Dict[str, Any]) -> Any:
@@ -402,8 +523,12 @@ class FloatInterp:
                             t_iv = (max(var.lo, other), var.hi)
                             f_iv = (var.lo, min(var.hi, other))
                         strict = o in ("<", ">")
-                        te = dict(env, **{name: Iv(t_iv[0], t_iv[1], var.src)}) if (t_iv[0] < t_iv[1] or (t_iv[0] == t_iv[1] and not strict)) else None
-                        fe = dict(env, **{name: Iv(f_iv[0], f_iv[1], var.src)}) if (f_iv[0] < f_iv[1] or (f_iv[0] == f_iv[1] and strict)) else None
+                        cont = not var.src.startswith("field")      # a cut through a continuous range is approached; through a finite set it may not be
+
+                        def cut(iv):
+                            return Iv(iv[0], iv[1], var.src, var.lo_t and (iv[0] == var.lo or cont), var.hi_t and (iv[1] == var.hi or cont))
+                        te = dict(env, **{name: cut(t_iv)}) if (t_iv[0] < t_iv[1] or (t_iv[0] == t_iv[1] and not strict)) else None
+                        fe = dict(env, **{name: cut(f_iv)}) if (f_iv[0] < f_iv[1] or (f_iv[0] == f_iv[1] and strict)) else None
                         return te, fe
                     # no variable to refine: decide if possible
                     if o in ("<", "<="):
